@@ -1130,10 +1130,18 @@ class Interp:
             items = obj.items if isinstance(obj, DequeVal) else obj
             if is_sym(idx):
                 raise Unsupported("del with symbolic index")
-            del items[idx]
+            try:
+                del items[idx]
+            except IndexError:
+                raise self.exc("IndexError", ("deque" if isinstance(obj, DequeVal) else "list assignment") + " index out of range")
             return
         if isinstance(obj, dict):
-            del obj[idx]
+            if is_sym(idx):
+                raise Unsupported("del of a dict entry with symbolic key")
+            try:
+                del obj[idx]
+            except KeyError:
+                raise self.exc("KeyError", idx)
             return
         d = getattr(obj, "py_delitem", None)
         if d is not None:
